@@ -232,8 +232,14 @@ OnProvide(mm, e) ==
               ELSE {}
       \* the value of `enabled` as the run loop evaluated it from the workflow text (boolean forms of the YAML layer)
       off == e.stage = "enabling" /\ \E o \in mm.ev.obs : o[1] = <<"enabled">> /\ o[2] \in {"false", "False", "FALSE", "no", "off", "0", "n", "disable", "disabled"}
+      \* the stop condition as the run loop evaluated it: whatever it resolved to - an object, an empty object, zero, a
+      \* string - it has fired, unless it is the literal false.  Judged here, on the run loop's own evaluation, not on the
+      \* step's announcement that it accepted the condition.
+      fired == e.stage = "cancelled" /\ \E o \in mm.ev.obs : o[1] # <<>> /\ o[1][1] = "stop_if" /\ ~(o[1] = <<"stop_if">> /\ o[2] = "false")
+      sp == IF fired /\ e.step \notin mm.checked /\ e.step \notin mm.spawned THEN {e.step} ELSE {}
   IN  VS([mm EXCEPT !.provided = @ \cup {<<e.step, e.stage>>}, !.provObs = @ \cup po,
-                    !.provOff = IF off THEN @ \cup {e.step} ELSE @], c1 \cup c2 \cup c3)
+                    !.provOff = IF off THEN @ \cup {e.step} ELSE @,
+                    !.stopPending = @ \cup sp], c1 \cup c2 \cup c3)
 
 OnOutSend(mm, e) ==
   LET node == OutputNode(e.id)
